@@ -27,7 +27,7 @@ func TestC41(t *testing.T) {
 	} {
 		c.Floor(k, v)
 	}
-	n := c.N(10, 16)
+	n := c.N(10, 40)
 	for i := 0; i < n; i++ {
 		if c.SkipCase(i) {
 			continue
